@@ -4,10 +4,12 @@ import (
 	"context"
 	"fmt"
 	"strings"
+	"sync"
 	"testing"
 	"time"
 
 	"github.com/256dpi/lungo"
+	"github.com/256dpi/lungo/bsonkit"
 	"go.mongodb.org/mongo-driver/bson"
 	"go.mongodb.org/mongo-driver/bson/primitive"
 	"go.mongodb.org/mongo-driver/mongo"
@@ -181,6 +183,7 @@ func runC19(c bson.D, x *Ctx) (err error) {
 		ns       string
 		removed  map[int32]bool
 		hasTTL   bool
+		ttlField string
 		survives int
 	}
 	var exps []expect
@@ -208,6 +211,7 @@ func runC19(c bson.D, x *Ctx) (err error) {
 			id := asD(iv)
 			f := asS(getD(id, "field"))
 			ex.hasTTL = true
+			ex.ttlField = f
 			ttls = append(ttls, ttlIx{f, asI(getD(id, "ttl"))})
 			if _, e := coll.Indexes().CreateOne(ctx, mongo.IndexModel{Keys: bson.D{{Key: f, Value: int32(1)}}, Options: options.Index().SetExpireAfterSeconds(int32(asI(getD(id, "ttl"))))}); e != nil {
 				return fmt.Errorf("creating a TTL index on %q failed: %v", f, e)
@@ -298,6 +302,15 @@ func runC19(c bson.D, x *Ctx) (err error) {
 		env.engine.Abort(txn)
 		return fmt.Errorf("Expire failed: %v", e)
 	}
+	if oplogLen%2 == 1 {
+		// a second pass in the same transaction finds nothing left and changes
+		// nothing - in particular not what the first one did
+		if e := txn.Expire(); e != nil {
+			env.engine.Abort(txn)
+			return fmt.Errorf("second Expire failed: %v", e)
+		}
+		x.Class("two-passes-in-one-transaction")
+	}
 	if e := env.engine.Commit(txn); e != nil {
 		return fmt.Errorf("commit of the expiry pass failed: %v", e)
 	}
@@ -367,6 +380,131 @@ func runC19(c bson.D, x *Ctx) (err error) {
 	}
 	if len(exps) >= 2 && totalRemoved >= 1 && oldLookingSurvivor >= 1 && recentSurvivor >= 1 {
 		x.NonTrivial()
+	}
+	// a pass that removes nothing, run in a transaction that has written
+	// before, leaves that write alone: the document (no date in the indexed
+	// field) is there after the commit
+	if len(exps) > 0 {
+		db, cn := splitNS(exps[0].ns)
+		handle := lungo.Handle{db, cn}
+		txn2, e := env.engine.Begin(nil, true)
+		if e != nil {
+			return fmt.Errorf("harness: %v", e)
+		}
+		fresh := bson.D{{Key: "_id", Value: int32(1 << 20)}, {Key: "t", Value: "no date"}}
+		if _, e := txn2.Insert(handle, bsonkit.List{&fresh}, true); e != nil {
+			// (e.g. a unique index of the case does not admit it)
+			env.engine.Abort(txn2)
+			x.Class("write-before-pass-not-admitted")
+			return nil
+		}
+		if e := txn2.Expire(); e != nil {
+			env.engine.Abort(txn2)
+			return fmt.Errorf("Expire failed: %v", e)
+		}
+		if e := env.engine.Commit(txn2); e != nil {
+			return fmt.Errorf("commit of a write followed by an expiry pass failed: %v", e)
+		}
+		found := false
+		for _, d := range env.engine.Catalog().Namespaces[handle].Documents.List {
+			if id, ok := getD(*d, "_id").(int32); ok && id == 1<<20 {
+				found = true
+			}
+		}
+		if !found {
+			return fmt.Errorf("a document without a date, inserted in the transaction that then ran an expiry pass with nothing to remove, is gone after the commit")
+		}
+	}
+	// a pass that has to wait for the writer slot works on what the writer it
+	// waited for committed: it removes the expired document and leaves the
+	// document that writer inserted (no date) alone
+	for _, ex := range exps {
+		if ex.ttlField == "" || strings.Contains(ex.ttlField, ".") {
+			continue
+		}
+		coll := env.coll(ex.ns)
+		oldID, newID := int32(1<<21), int32(1<<22)
+		if _, e := coll.InsertOne(ctx, bson.D{{Key: "_id", Value: oldID}, {Key: ex.ttlField, Value: primitive.DateTime(0)}, {Key: "k", Value: "waiting-pass-old"}}); e != nil {
+			x.Class("waiting-pass-skipped")
+			break
+		}
+		sess, e := env.client.StartSession()
+		if e != nil {
+			return fmt.Errorf("harness: %v", e)
+		}
+		if e := sess.StartTransaction(); e != nil {
+			return fmt.Errorf("harness: %v", e)
+		}
+		var ierr error
+		_ = lungo.WithSession(ctx, sess, func(sc lungo.ISessionContext) error {
+			_, ierr = coll.InsertOne(sc, bson.D{{Key: "_id", Value: newID}, {Key: ex.ttlField, Value: "no date"}, {Key: "k", Value: "waiting-pass-new"}})
+			return nil
+		})
+		if ierr != nil {
+			_ = sess.AbortTransaction(ctx)
+			sess.EndSession(ctx)
+			x.Class("waiting-pass-skipped")
+			break
+		}
+		waiting := make(chan struct{})
+		var once sync.Once
+		hk := func(point string) {
+			if point == "begin.unlocked" {
+				once.Do(func() { close(waiting) })
+			}
+		}
+		lungo.VerifHook.Store(&hk)
+		passErr := make(chan error, 1)
+		go func() {
+			bctx, bcancel := context.WithTimeout(context.Background(), 30*time.Second)
+			defer bcancel()
+			txn, e := env.engine.Begin(bctx, true)
+			if e != nil {
+				passErr <- fmt.Errorf("Begin of the waiting pass failed: %v", e)
+				return
+			}
+			if e := txn.Expire(); e != nil {
+				env.engine.Abort(txn)
+				passErr <- fmt.Errorf("Expire failed: %v", e)
+				return
+			}
+			passErr <- env.engine.Commit(txn)
+		}()
+		select {
+		case <-waiting:
+		case <-time.After(10 * time.Second):
+		}
+		time.Sleep(2 * time.Millisecond)
+		cerr := sess.CommitTransaction(ctx)
+		sess.EndSession(ctx)
+		var perr error
+		select {
+		case perr = <-passErr:
+		case <-time.After(40 * time.Second):
+			lungo.VerifHook.Store(nil)
+			return fmt.Errorf("an expiry pass that waited for the writer slot did not finish within 40 s after the slot was released")
+		}
+		lungo.VerifHook.Store(nil)
+		if cerr != nil || perr != nil {
+			return fmt.Errorf("session commit / waiting expiry pass failed: %v / %v", cerr, perr)
+		}
+		hasOld, hasNew := false, false
+		db, cn := splitNS(ex.ns)
+		for _, d := range env.engine.Catalog().Namespaces[lungo.Handle{db, cn}].Documents.List {
+			if id, ok := getD(*d, "_id").(int32); ok && id == oldID {
+				hasOld = true
+			} else if ok && id == newID {
+				hasNew = true
+			}
+		}
+		if hasOld {
+			return fmt.Errorf("an expiry pass that waited for the writer slot did not remove the expired document (%s: 1970)", ex.ttlField)
+		}
+		if !hasNew {
+			return fmt.Errorf("an expiry pass that waited for the writer slot removed (or never saw) the document without a date that the writer it waited for had committed")
+		}
+		x.Class("pass-waited-for-a-writer")
+		break
 	}
 	return nil
 }
